@@ -25,3 +25,5 @@ func main() {
 	out.Close()
 	os.Exit(0)
 }
+
+func readFile(p string) ([]byte, error) { return os.ReadFile(p) }
